@@ -87,7 +87,7 @@ Qed.
 
 (** ** Shrink *)
 
-(** The work done for one table, and the loop of [w_shrink] as a top-level fixpoint. *)
+(** The work done for one table, and the loop of [w_shrink_core] as a top-level fixpoint. *)
 Definition r_any1 (idx : nat) (any : bool) (t : table) (s : W) : MW bool :=
   if negb (tbl_has_rels t) then
     if tbl_can_shrink t (cf_cap (w_cfg s))
@@ -124,16 +124,16 @@ Definition r_work (s : W) (t : table) : bool :=
   else (tbl_can_shrink t (cf_caprel (w_cfg s)) || (negb (t_free t) && Nat.eqb (t_len t) 0))%bool.
 
 Lemma r_shrink_unfold : forall stop0,
-  w_shrink stop0 =
+  w_shrink_core stop0 =
   (s <- get ;;
    r <- r_go stop0 (length (w_tables s)) 0 false ;;
    let '(last, _) := r in
    s <- get ;;
    ret (existsb (r_work s) (skipn (S last) (w_tables s)))).
-Proof. intros. lazy delta [w_shrink r_go r_any1 r_work] beta. reflexivity. Qed.
+Proof. intros. lazy delta [w_shrink_core r_go r_any1 r_work] beta. reflexivity. Qed.
 
 Lemma r_shrink_eq : forall stop0 s,
-  w_shrink stop0 s =
+  w_shrink_core stop0 s =
   match r_go stop0 (length (w_tables s)) 0 false s with
   | Ok r s' => Ok (existsb (r_work s') (skipn (S (fst r)) (w_tables s'))) s'
   | Err e s' => Err e s'
@@ -322,7 +322,7 @@ Qed.
 (** The shape of a Shrink run in a relation-free world. *)
 Lemma r_shrink_run : forall s stop0, St s ->
   exists last T',
-    w_shrink stop0 s = Ok (existsb (fun t => tbl_can_shrink t (cf_cap (w_cfg s))) (skipn (S last) T'))
+    w_shrink_core stop0 s = Ok (existsb (fun t => tbl_can_shrink t (cf_cap (w_cfg s))) (skipn (S last) T'))
                           (s <| w_tables := T' |>) /\
     length T' = length (w_tables s) /\ last < length (w_tables s) /\
     (forall j, nth_error T' j = if Nat.leb j last then option_map (r_step (cf_cap (w_cfg s))) (nth_error (w_tables s) j)
@@ -367,7 +367,7 @@ Qed.
 (** Shrink (unbounded budget or zero budget) never changes entities, components, values; the world
     stays well formed; it never fails; the lock, observers, filters and queries are untouched. *)
 Theorem shrink_invisible : forall s stop0, St s ->
-  exists b s', w_shrink stop0 s = Ok b s' /\ St s' /\ content_same s s' /\ w_pool s' = w_pool s /\
+  exists b s', w_shrink_core stop0 s = Ok b s' /\ St s' /\ content_same s s' /\ w_pool s' = w_pool s /\
                w_index s' = w_index s /\ side_same s s' /\ frame_user s s' /\ w_archs s' = w_archs s /\
                length (w_tables s') = length (w_tables s).
 Proof.
@@ -390,7 +390,7 @@ Qed.
 (** After an unbounded Shrink every table's capacity is at least its size and at most the larger of
     the initial capacity and the next power of two of its size; and Shrink reports no remaining work. *)
 Theorem shrink_capacity_bounds : forall s, St s ->
-  exists s', w_shrink false s = Ok false s' /\
+  exists s', w_shrink_core false s = Ok false s' /\
   forall tid t, nth_error (w_tables s') tid = Some t ->
     t_len t <= t_cap t /\ t_cap t <= Nat.max (cf_cap (w_cfg s)) (cap_pow2 (t_len t)).
 Proof.
@@ -421,7 +421,7 @@ Definition shrinkable (s : W) : nat :=
   length (filter (fun t => tbl_can_shrink t (cf_cap (w_cfg s))) (w_tables s)).
 
 Theorem shrink_result_exact : forall s stop0, St s ->
-  exists b s', w_shrink stop0 s = Ok b s' /\ (b = true <-> 0 < shrinkable s') .
+  exists b s', w_shrink_core stop0 s = Ok b s' /\ (b = true <-> 0 < shrinkable s') .
 Proof.
   intros s stop0 HSt.
   destruct (r_shrink_run s stop0 HSt) as (last & T' & E & L & B & P & _).
@@ -439,7 +439,7 @@ Proof.
 Qed.
 
 Theorem shrink_converges : forall s, St s -> 0 < shrinkable s ->
-  exists b s', w_shrink true s = Ok b s' /\ shrinkable s' < shrinkable s.
+  exists b s', w_shrink_core true s = Ok b s' /\ shrinkable s' < shrinkable s.
 Proof.
   intros s HSt Hpos.
   destruct (r_shrink_run s true HSt) as (last & T' & E & L & B & P & _ & S1).
@@ -478,6 +478,48 @@ Proof. intros s H. unfold check_locked, bind, get, guard. rewrite H. reflexivity
 
 Lemma r_modify_eq : forall (f : W -> W) s, modify f s = Ok tt (f s).
 Proof. reflexivity. Qed.
+
+(** *** World.Shrink = lock check + storage.Shrink. On a locked world (an open query, a running
+    callback) it is rejected without effect - the repair of the defect that an open query walked a
+    table list out of which Shrink had swapped a freed table; on an unlocked world it is the loop
+    [w_shrink_core] the theorems above are about. *)
+Theorem shrink_locked_rejected : forall s stop0, is_locked s = true -> w_shrink stop0 s = Err ELocked s.
+Proof.
+  intros s stop0 H. unfold w_shrink. apply sa_bind_err.
+  unfold check_locked, bind, get, guard. rewrite H. reflexivity.
+Qed.
+
+Theorem shrink_unlocked_eq : forall s stop0, is_locked s = false -> w_shrink stop0 s = w_shrink_core stop0 s.
+Proof. intros s stop0 H. unfold w_shrink. rewrite (sa_bind_ok (r_check_unlocked s H)). reflexivity. Qed.
+
+Theorem shrink_invisible_w : forall s stop0, St s -> is_locked s = false ->
+  exists b s', w_shrink stop0 s = Ok b s' /\ St s' /\ content_same s s' /\ w_pool s' = w_pool s /\
+               w_index s' = w_index s /\ side_same s s' /\ frame_user s s' /\ w_archs s' = w_archs s /\
+               length (w_tables s') = length (w_tables s).
+Proof. intros s stop0 HSt Hl. rewrite (shrink_unlocked_eq s stop0 Hl). apply shrink_invisible. exact HSt. Qed.
+
+Theorem shrink_capacity_bounds_w : forall s, St s -> is_locked s = false ->
+  exists s', w_shrink false s = Ok false s' /\
+  forall tid t, nth_error (w_tables s') tid = Some t ->
+    t_len t <= t_cap t /\ t_cap t <= Nat.max (cf_cap (w_cfg s)) (cap_pow2 (t_len t)).
+Proof. intros s HSt Hl. rewrite (shrink_unlocked_eq s false Hl). apply shrink_capacity_bounds. exact HSt. Qed.
+
+Theorem shrink_result_exact_w : forall s stop0, St s -> is_locked s = false ->
+  exists b s', w_shrink stop0 s = Ok b s' /\ (b = true <-> 0 < shrinkable s').
+Proof. intros s stop0 HSt Hl. rewrite (shrink_unlocked_eq s stop0 Hl). apply shrink_result_exact. exact HSt. Qed.
+
+Theorem shrink_converges_w : forall s, St s -> is_locked s = false -> 0 < shrinkable s ->
+  exists b s', w_shrink true s = Ok b s' /\ shrinkable s' < shrinkable s.
+Proof. intros s HSt Hl Hp. rewrite (shrink_unlocked_eq s true Hl). apply shrink_converges; assumption. Qed.
+
+(** The lock is untouched by a Shrink that runs, so a sequence of time-boxed calls stays admissible. *)
+Theorem shrink_keeps_unlocked : forall s stop0 b s', St s -> is_locked s = false ->
+  w_shrink stop0 s = Ok b s' -> is_locked s' = false.
+Proof.
+  intros s stop0 b s' HSt Hl E. destruct (shrink_invisible_w s stop0 HSt Hl) as (b1 & s1 & E1 & _ & _ & _ & _ & SS & _).
+  rewrite E in E1. inversion E1; subst b1 s1. unfold side_same in SS. unfold is_locked in *.
+  replace (w_lock s') with (w_lock s); [exact Hl|]. symmetry. apply SS.
+Qed.
 
 (** *** The filter cache *)
 
